@@ -282,8 +282,11 @@ theorem expand_f_names_eq (sc : Scope) (fs : List Fn) :
     unfold genericRec fExt
     by_cases hf : r.wrap.f = true
     · by_cases hg : r.generics.isEmpty = true
-      · simp [hf, hg, List.filter_cons, nameExt, (f_names_predictable sc r).1]
-      · simp [hf, hg, List.filter_cons, List.filter_map, Function.comp_def, nameExt,
+      · have hg' : r.generics = [] := by simpa using hg
+        simp [hf, hg', List.filter_cons, nameExt, (f_names_predictable sc r).1]
+      · have hg' : r.generics ≠ [] := by simpa using hg
+        have hall : r.generics.filter (fun _ => true) = r.generics := List.filter_eq_self.2 (by simp)
+        simp [hf, hg', hall, List.filter_cons, List.filter_map, Function.comp_def, nameExt,
           f_names_predictable]
     · simp [hf, List.filter_cons]
   have fB : ∀ r : Rec, (((bufferifyRec r).flatMap genericRec).filter (fun x => x.wrap.f)).map (fImpl sc)
@@ -330,7 +333,8 @@ theorem expand_c_names_distinct (sc : Scope) (fs : List Fn)
   · intro r _
     unfold cExt
     split
-    · simp [bufSuffix]
+    · have : ([] : Str) ≠ bufSuffix := by decide
+      simp [this]
     · simp
   · intro r hr ht e he
     simpa [cExt, tb r hr ht] using he
@@ -362,6 +366,25 @@ theorem expand_fortran_names_distinct (sc : Scope) (fs : List Fn)
   · intro r hr ht e he
     simpa [fExt, tg r hr ht] using he
 
+/-- `exFns` plus a function with a `std::string` argument and a default, and one with a
+    `fortran_generic` list -/
+def exFns2 : List Fn :=
+  exFns ++ [{ exFn "str" 2 1 none with hasBuf := true },
+            { exFn "gen" 1 0 none with generics := [none, some "_dbl".toList] }]
+
+example : CoreOK (fun w => w.c) (stage1 exScope exFns2) := by constructor <;> decide +kernel
+example : CoreOK (fun w => w.f) (stage1 exScope exFns2) := by constructor <;> decide +kernel
+example : ∀ r ∈ stage1 exScope exFns2, eligible r = true → r.sfxLocal = true → isTok r.sfx = true := by
+  decide +kernel
+example : ∀ r ∈ stage1 exScope exFns2, eligible r = false → r.hasBuf = false := by decide +kernel
+example : ∀ r ∈ stage1 exScope exFns2, ∀ g ∈ r.generics, extLike g = true := by decide +kernel
+example : ∀ r ∈ stage1 exScope exFns2, r.generics.Nodup := by decide +kernel
+example : ∀ r ∈ stage1 exScope exFns2, eligible r = false → r.generics = [] := by decide +kernel
+example : (((expand exScope exFns2).filter (fun r => r.wrap.f)).map (fImpl exScope))
+    = ["foo_bar_0", "foo_bar_1", "foo_bar_2", "foo_bar_dbl", "tmpl_int", "tmpl_double", "get",
+       "str_0", "str_1", "gen_0", "gen_dbl"].map String.toList := by
+  decide +kernel
+
 example : (((expand exScope (exFns ++ [{ exFn "str" 2 1 none with hasBuf := true },
       { exFn "gen" 1 0 none with generics := [none, some "_dbl".toList] }])).filter
         (fun r => r.wrap.c)).map (cName exScope))
@@ -369,6 +392,109 @@ example : (((expand exScope (exFns ++ [{ exFn "str" 2 1 none with hasBuf := true
        "NM_outer_tmpl_int", "NM_outer_tmpl_double", "NM_outer_get",
        "NM_outer_str_0", "NM_outer_str_0_bufferify", "NM_outer_str_1", "NM_outer_str_1_bufferify",
        "NM_outer_gen"].map String.toList := by
+  decide +kernel
+
+/-! ### across scopes -/
+
+theorem templateClones_name (o : Rec) (w : Wrap) : ∀ (l : List TInst) (i : Nat),
+    ∀ r ∈ templateClones o w i l, r.name = o.name := by
+  intro l
+  induction l with
+  | nil => intro _ r h; simp [templateClones] at h
+  | cons t ts ih =>
+    intro i r h
+    simp only [templateClones, List.mem_cons] at h
+    rcases h with rfl | h
+    · rfl
+    · exact ih _ r h
+
+theorem original_name (sc : Scope) (f : Fn) : (original sc f).name = f.name := by
+  unfold original; repeat' split
+  all_goals rfl
+
+/-- Every record of the expansion carries the name of one of the declarations. -/
+theorem expand_name_mem (sc : Scope) (fs : List Fn) :
+    ∀ r ∈ expand sc fs, ∃ f ∈ fs, r.name = f.name := by
+  intro r hr
+  unfold expand at hr
+  simp only [List.mem_flatMap] at hr
+  obtain ⟨r1, ⟨r2, hr2, hr1⟩, hr⟩ := hr
+  have h1 : r.name = r1.name := by
+    unfold genericRec at hr
+    split at hr
+    · simp only [List.mem_cons, List.mem_map] at hr
+      rcases hr with rfl | ⟨g, _, rfl⟩ <;> rfl
+    · simp at hr; rw [hr]
+  have h2 : r1.name = r2.name := by
+    unfold bufferifyRec at hr1
+    split at hr1
+    · simp only [List.mem_cons, List.not_mem_nil, or_false] at hr1
+      rcases hr1 with rfl | rfl <;> rfl
+    · simp at hr1; rw [hr1]
+  obtain ⟨r3, hr3, i, _, e⟩ := mem_numberAux (all := stage1 sc fs) _ [] hr2
+  have h3 : r2.name = r3.name := by rw [e]; simp
+  unfold stage1 at hr3
+  simp only [List.mem_flatMap] at hr3
+  obtain ⟨f, hf, hr3⟩ := hr3
+  refine ⟨f, hf, ?_⟩
+  rw [h1, h2, h3]
+  unfold stage1Fn at hr3
+  simp only [List.mem_append, List.mem_map] at hr3
+  rcases hr3 with ⟨k, _, rfl⟩ | hr3
+  · rfl
+  · split at hr3
+    · simp at hr3; rw [hr3, original_name]
+    · simp only [List.mem_cons] at hr3
+      rcases hr3 with rfl | hr3
+      · exact original_name sc f
+      · rw [templateClones_name _ _ _ _ r3 hr3, original_name]
+
+/-- All C names one scope emits. -/
+def cNamesOf (p : Scope × List Fn) : List Str :=
+  ((expand p.1 p.2).filter (fun r => r.wrap.c)).map (cName p.1)
+
+/-- Scopes are separated: same library prefix, and `C_name_scope ++ underscore_name` of a
+    declaration in one scope is never a prefix of that of a declaration in another scope
+    (e.g. distinct namespace/class paths whose `_`-joined forms are not prefixes of one another). -/
+def ScopesSep (P : List (Scope × List Fn)) : Prop :=
+  P.Pairwise fun a b => a.1.cPrefix = b.1.cPrefix ∧ ∀ f ∈ a.2, ∀ g ∈ b.2,
+    ¬ (a.1.cScope ++ unCamel f.name <+: b.1.cScope ++ unCamel g.name)
+    ∧ ¬ (b.1.cScope ++ unCamel g.name <+: a.1.cScope ++ unCamel f.name)
+
+/-- **(b) C symbols of a whole library.**  With separated scopes, the external C symbols of
+    all scopes together are pairwise distinct. -/
+theorem program_c_names_distinct (P : List (Scope × List Fn))
+    (each : ∀ p ∈ P, (cNamesOf p).Nodup) (sep : ScopesSep P) :
+    (P.flatMap cNamesOf).Nodup := by
+  unfold List.Nodup
+  rw [List.pairwise_flatMap]
+  refine ⟨each, sep.imp ?_⟩
+  intro a b ⟨hp, hsep⟩ x hx y hy
+  unfold cNamesOf at hx hy
+  simp only [List.mem_map, List.mem_filter] at hx hy
+  obtain ⟨r1, ⟨hr1, _⟩, rfl⟩ := hx
+  obtain ⟨r2, ⟨hr2, _⟩, rfl⟩ := hy
+  obtain ⟨f, hf, e1⟩ := expand_name_mem _ _ r1 hr1
+  obtain ⟨g, hg, e2⟩ := expand_name_mem _ _ r2 hr2
+  rw [c_name_predictable, c_name_predictable, hp, e1, e2]
+  intro h
+  simp only [List.append_assoc] at h
+  have h := List.append_cancel_left h
+  obtain ⟨n1, n2⟩ := hsep f hf g hg
+  have := append_ne_of_not_prefix (t1 := r1.sfx ++ r1.tsfx) (t2 := r2.sfx ++ r2.tsfx) n1 n2
+  exact this (by simpa [List.append_assoc] using h)
+
+/-- Library-level statement in terms of the per-scope hypotheses. -/
+theorem program_c_names_distinct' (P : List (Scope × List Fn))
+    (ok : ∀ p ∈ P, CoreOK (fun w => w.c) (stage1 p.1 p.2)
+      ∧ (∀ r ∈ stage1 p.1 p.2, eligible r = true → r.sfxLocal = true → isTok r.sfx = true)
+      ∧ (∀ r ∈ stage1 p.1 p.2, eligible r = false → r.hasBuf = false))
+    (sep : ScopesSep P) : (P.flatMap cNamesOf).Nodup :=
+  program_c_names_distinct P
+    (fun p hp => expand_c_names_distinct p.1 p.2 (ok p hp).1 (ok p hp).2.1 (ok p hp).2.2) sep
+
+example : ScopesSep [(exScope, exFns), ({ exScope with cScope := "ns2_".toList }, exFns)] := by
+  unfold ScopesSep
   decide +kernel
 
 /-- **(c) generic interfaces.**  The `f_function_generic` table built while wrapping lists,
